@@ -267,26 +267,14 @@ func (v *Value) GetMember(member Value) (*Cell, error) {
 		}
 
 		if index >= len(arr) {
-			// TODO sparse arrays
-			// don't fill up to enormous numbers, just bail
-			if index > 1024*1024 {
-				return nil, fmt.Errorf("index too large to auto-fill array")
-			}
-
-			// fill the array with empty cells up to the index
-			var lastCell *Cell
-			for i := len(arr); i <= index; i++ {
-				lastCell = NewCell(NewValue(nil))
-				arr = append(arr, lastCell)
-			}
-			v.Array = arr
-
-			// make the last cell a spec object
-			lastCell.Value.ParentObj = v
+			// reading past the end does not change the array: hand out a
+			// speculative null that creates the element (see SetMember) only
+			// if it is assigned to
+			specCell := NewCell(NewValue(nil))
+			specCell.Value.ParentObj = v
 			fIndex := float64(index)
-			lastCell.Value.Num = &fIndex
-
-			return lastCell, nil
+			specCell.Value.Num = &fIndex
+			return specCell, nil
 		}
 		return arr[index], nil
 	case ValueObj:
@@ -324,6 +312,20 @@ func (v *Value) SetMember(member Value, cell *Cell) (*Cell, error) {
 	case ValueArray:
 		if member.Tag != ValueNum {
 			return nil, fmt.Errorf("array indices must be numbers")
+		}
+
+		index := int(*member.Num)
+		if index >= len(v.Array) {
+			// TODO sparse arrays
+			// don't fill up to enormous numbers, just bail
+			if index > 1024*1024 {
+				return nil, fmt.Errorf("index too large to auto-fill array")
+			}
+
+			// fill the array with empty cells up to the index
+			for i := len(v.Array); i <= index; i++ {
+				v.Array = append(v.Array, NewCell(NewValue(nil)))
+			}
 		}
 
 		item, err := v.GetMember(member)
